@@ -21,7 +21,12 @@ Several modules, one Checker (stream multi): the same def texts in 2-3 generated
   with the Lean model per module environment; importer call verdicts with one Checker vs alone.
   translate(): the per-Checker caches of arg_spec.py / annotations.py / functions.py (attributes, decorators, key expressions)
   are regenerated into Generated/ArgSpecCaches.lean and pinned by Props/C13.lean argspec_caches_registered.
-Implementation-only streams: extra (Callable/TypedDict/Protocol/TypeVar forms, Annotated metadata built by a call),
+Function kinds: every header has a kind (def, async def, async generator, generator); both signature routes wrap the return
+  type of a coroutine function in Coroutine[Any, Any, …] (Lean wrapRet); the branch structure of from_signature /
+  compute_value_of_function that decides it is regenerated (Generated returnBranches, obligation return_branches_registered).
+  call_result: the value of a call next to the nested def vs from the importing module; verdicts include missing_await.
+Implementation-only streams: decorated (contextmanager / asynccontextmanager / lru_cache / wraps wrapper / static- and
+  classmethod: nested def vs module-level def vs importer), extra (Callable/TypedDict/Protocol/TypeVar forms, Annotated metadata built by a call),
   methods (parameter kinds of methods with __x parameters, def node vs function object, classes with leading underscores).
 Names: annotations use names through an explicit environment (Lean `NameEnv`): module-level names shadowing a builtin
 (complex, TimeoutError, Warning), builtin-only, module-only, undefined, bound after the defs — quoted, unquoted, under
@@ -52,6 +57,9 @@ ANCHORS = [
     ("pyanalyze/annotations.py", "_DefaultContext.get_name"),
     ("pyanalyze/arg_spec.py", "AnnotationsContext.get_name"),
     ("pyanalyze/name_check_visitor.py", "NameCheckVisitor.resolve_name"),
+    ("pyanalyze/name_check_visitor.py", "NameCheckVisitor._set_argspec_to_retval"),
+    ("pyanalyze/arg_spec.py", "ArgSpecCache._uncached_get_argspec"),
+    ("pyanalyze/value.py", "make_coro_type"),
     ("pyanalyze/annotations.py", "_make_sequence_value"),
     ("pyanalyze/annotations.py", "_make_annotated"),
     ("pyanalyze/annotations.py", "_maybe_typed_value"),
@@ -84,7 +92,9 @@ ASSUMPTIONS = [
     "typing (CPython 3.12) and inspect.signature are modelled parameters (Spec/AnnotSpec.lean tnorm, inspectOf), validated against the real modules on every run (streams typing, inspect)",
     "Any sources (explicit / error / unannotated) are not distinguished by the shared Ty terms; the number of errors shown is compared instead",
     "the def-node signature is observed on a def nested in a function of the checked module (a module-level def of an importable module is replaced by its runtime object, name_check_visitor.py:1990)",
-    "Annotated metadata is the constant 'm'; classmethods/staticmethods/decorators/async defs and Unpack on *args are outside the modelled headers",
+    "Annotated metadata is the constant 'm'; the function kind (def / async def / async generator / generator) is part of the modelled headers; decorated functions (functools.wraps wrapper, contextmanager, asynccontextmanager, lru_cache, staticmethod, classmethod), methods and Unpack on *args are compared on the implementation only (streams decorated, methods)",
+    "collections.abc.Coroutine is registered in the value codec of this process under class id 900 (Lean coroCls); the shared class table on disk is not touched",
+    "the return value pyanalyze infers from the body of an unannotated function (_set_argspec_to_retval) is outside the model: call-result values are compared only under a return annotation, otherwise only the Coroutine wrapper",
 ]
 TRUSTED = [
     "Spec/AnnotSpec.lean tnorm / inspectOf validated against typing / inspect of the running CPython (streams typing, inspect)",
@@ -162,18 +172,54 @@ def scan_caches(repo):
     return out
 
 
+def scan_return_branches(repo):
+    """Where the two signature routes assign the return type: (function, path of branch conditions, what is assigned).
+    from_signature (arg_spec.py): every `returns = …` under `if returns is not None: … else: …`;
+    compute_value_of_function (functions.py): every `result = …`."""
+    rows = []
+
+    def walk(stmts, path, var, fn):
+        for st in stmts:
+            if isinstance(st, ast.If):
+                t = ast.unparse(st.test)
+                walk(st.body, path + [t], var, fn)
+                walk(st.orelse, path + ["not (%s)" % t], var, fn)
+            elif isinstance(st, (ast.For, ast.While, ast.With, ast.Try)):
+                walk(getattr(st, "body", []), path + [type(st).__name__], var, fn)
+            elif isinstance(st, ast.Assign) and any(isinstance(t, ast.Name) and t.id == var for t in st.targets):
+                v = st.value
+                what = v.func.id if isinstance(v, ast.Call) and isinstance(v.func, ast.Name) else type(v).__name__
+                rows.append((fn, " and ".join("(%s)" % c for c in path), what))
+
+    for rel, cls, fn, var in (("pyanalyze/arg_spec.py", "ArgSpecCache", "from_signature", "returns"),
+                              ("pyanalyze/functions.py", None, "compute_value_of_function", "result")):
+        tree = ast.parse(open(os.path.join(repo, rel)).read())
+        body = tree.body
+        if cls:
+            body = [n for n in tree.body if isinstance(n, ast.ClassDef) and n.name == cls][0].body
+        f = [n for n in body if isinstance(n, ast.FunctionDef) and n.name == fn][0]
+        walk(f.body, [], var, fn)
+    return rows
+
+
 def translate(ctx):
-    """Regenerate Generated/ArgSpecCaches.lean from the tree under check (obligation argspec_caches_registered)."""
+    """Regenerate Generated/ArgSpecCaches.lean from the tree under check (obligations argspec_caches_registered,
+    return_branches_registered)."""
     repo = os.environ.get("VERIF_REPO", "/repo")
     rows = scan_caches(repo)
+    branches = scan_return_branches(repo)
     q = lambda x: '"' + x.replace("\\", "\\\\").replace('"', '\\"') + '"'
     body = ",\n  ".join("(%s, %s, %s, %s)" % tuple(q(x) for x in r) for r in rows)
     text = ("/-! GENERATED by harness/props/c13.py (translate) from the live tree on every run. Do not edit.\n"
             "Every container of pyanalyze/arg_spec.py, annotations.py, functions.py that can outlive one function: (file, owner.name, kind,\n"
             "key expressions it is stored under). -/\nnamespace Pya.C13\n\n"
-            "def argspecCaches : List (String × String × String × String) := [\n  %s]\n\nend Pya.C13\n" % body)
+            "def argspecCaches : List (String × String × String × String) := [\n  %s]\n\n"
+            "/-- where `from_signature` / `compute_value_of_function` assign the return type: (function, branch conditions, value) -/\n"
+            "def returnBranches : List (String × String × String) := [\n  %s]\n\nend Pya.C13\n"
+            % (body, ",\n  ".join("(%s, %s, %s)" % tuple(q(x) for x in r) for r in branches)))
     lean.write_if_changed(os.path.join(lean.LEAN, "PyaModel", "Generated", "ArgSpecCaches.lean"), text)
     ctx.extra["argspec_caches"] = rows
+    ctx.extra["return_branches"] = branches
 
 
 # ------------------------------------------------------------------ universe
@@ -196,6 +242,11 @@ OLD_NAME = {
 }
 ARITY = {LIST: 1, SET: 1, FSET: 1, DICT: 2, G.SEQUENCE: 1, G.ITERABLE: 1, G.COLLECTION: 1, G.CONTAINER: 1, G.MAPPING: 2,
          G.MUTSEQ: 1, G.ABSSET: 1}
+CORO = 900                       # Lean `coroCls`: collections.abc.Coroutine, registered for this process only
+V.CID[cabc.Coroutine] = CORO
+NEW_NAME[CORO] = "cabc.Coroutine"
+OLD_NAME[CORO] = "Coroutine"
+ARITY[CORO] = 3
 NT_NAME = {0: "NT0", 1: "NT1", 2: "NT2"}
 NT_CLS = {0: INT, 1: STR, 2: A_}
 
@@ -967,9 +1018,12 @@ KINDS = ["po", "pk", "vp", "ko", "vk"]
 PNAMES = "abcdefgh"
 
 
-def hdr(po=(), pk=(), vp=None, ko=(), kd=(), vk=None, df=(), ret=None, future=False):
+FN_KINDS = ["plain", "coro", "agen", "gen"]
+
+
+def hdr(po=(), pk=(), vp=None, ko=(), kd=(), vk=None, df=(), ret=None, future=False, kind="plain"):
     return {"po": list(po), "pk": list(pk), "vp": vp, "ko": list(ko), "kd": list(kd), "vk": vk, "df": list(df), "ret": ret,
-            "future": future}
+            "future": future, "kind": kind}
 
 
 def render_dflt(d):
@@ -1002,7 +1056,9 @@ def render_def(h, name):
         n, a = h["vk"]
         parts.append("**" + n + (": " + render(a) if a is not None else ""))
     ret = " -> " + render(h["ret"]) if h["ret"] is not None else ""
-    return "def %s(%s)%s: pass" % (name, ", ".join(parts), ret)
+    kind = h.get("kind", "plain")
+    return "%sdef %s(%s)%s: %s" % ("async " if kind in ("coro", "agen") else "", name, ", ".join(parts), ret,
+                                  "yield 1" if kind in ("agen", "gen") else "pass")
 
 
 def sexp_hdr(h):
@@ -1013,10 +1069,24 @@ def sexp_hdr(h):
     def d(x):
         return "nodef" if x is None else ("ell" if x == "ell" else "(lit %s)" % V.obj_sexp(x))
 
-    return "(def (posonly %s) (args %s) (vararg %s) (kwonly %s) (kwdefaults %s) (kwarg %s) (defaults %s) (ret %s) (method) (future %d))" % (
+    return "(def (kind " + h.get("kind", "plain") + ") (posonly %s) (args %s) (vararg %s) (kwonly %s) (kwdefaults %s) (kwarg %s) (defaults %s) (ret %s) (method) (future %d))" % (
         " ".join(p(x) for x in h["po"]), " ".join(p(x) for x in h["pk"]), p(h["vp"]) if h["vp"] else "",
         " ".join(p(x) for x in h["ko"]), " ".join(d(x) for x in h["kd"]), p(h["vk"]) if h["vk"] else "",
         " ".join(d(x) for x in h["df"]), sexp(h["ret"]) if h["ret"] is not None else "", int(h["future"]))
+
+
+def kind_headers():
+    """Every kind of function x every shape of return annotation (absent, a class, None, a string, Coroutine itself, an
+    Optional) x {no parameter, one annotated parameter}, with and without the future import."""
+    rets = [None, ("cls", INT), ("none",), ("str", ("cls", INT)), ("gen", True, CORO, [("anyT",), ("anyT",), ("cls", INT)]),
+            ("opt", ("cls", STR)), ("str", ("name", 0))]
+    out = []
+    for kind in FN_KINDS:
+        for r in rets:
+            for params in ([], [("a", ("cls", INT))]):
+                for fut in (False, True):
+                    out.append(hdr(pk=params, ret=r, kind=kind, future=fut))
+    return out
 
 
 SMALL_ANN = [None, ("cls", INT), ("str", ("name", 0)), ("opt", ("cls", STR)), ("name", 0), ("str", ("name", LATER_NAME))]
@@ -1093,7 +1163,7 @@ def random_header(rng, ann_depth=1):
         kinds.remove(2)
     while kinds.count(4) > 1:
         kinds.remove(4)
-    h = hdr(future=rng.random() < 0.25)
+    h = hdr(future=rng.random() < 0.25, kind=rng.choice(["plain"] * 11 + ["coro"] * 5 + ["agen"] * 2 + ["gen"] * 2))
     dstart = False
 
     def ann(var=False):
@@ -1308,6 +1378,7 @@ def eval_sig(ctx, headers, with_model=True):
     verdict_in = [None] * len(headers)
     verdict_out = [None] * len(headers)
     verdict_mod = [None] * len(headers)
+    result_in, result_out = {}, {}
     runtime = [None] * len(headers)
     B = 250
     for future, allidx in groups.items():
@@ -1385,6 +1456,9 @@ def eval_sig(ctx, headers, with_model=True):
                     i = where_def[n.lineno]
                     v = getattr(n.value, "inferred_value", None)
                     res_def[i] = sig_string(v.signature) if isinstance(v, CallableValue) else "NOCALLABLE:%s" % type(v).__name__
+            for n in outer.body:     # the value of the first call next to the nested def
+                if isinstance(n, ast.Expr) and isinstance(n.value, ast.Call) and where_call.get(n.lineno, (None, 1))[1] == 0:
+                    result_in[where_call[n.lineno][0]] = dec(getattr(n.value, "inferred_value", None))
             vin = {i: [set() for _ in calls[i]] for i in ok_idxs}
             vmod = {i: [set() for _ in calls[i]] for i in ok_idxs}
             internal = set()
@@ -1412,7 +1486,12 @@ def eval_sig(ctx, headers, with_model=True):
                     where2[len(lines2)] = (i, j)
             if len(lines2) == len(HEADER.split("\n")) + 1:
                 lines2.append("    pass")
-            fails2, _, _ = pya.check_source("\n".join(lines2) + "\n")
+            fails2, tree2, _ = pya.check_source("\n".join(lines2) + "\n", annotate=True)
+            for fnode in tree2.body:
+                if isinstance(fnode, ast.FunctionDef) and fnode.name == "run":
+                    for n in fnode.body:
+                        if isinstance(n, ast.Expr) and isinstance(n.value, ast.Call) and where2.get(n.lineno, (None, 1))[1] == 0:
+                            result_out[where2[n.lineno][0]] = dec(getattr(n.value, "inferred_value", None))
             vout = {i: [set() for _ in calls[i]] for i in ok_idxs}
             for f in fails2:
                 if f["lineno"] in where2:
@@ -1424,7 +1503,9 @@ def eval_sig(ctx, headers, with_model=True):
                 rt = []
                 for c in calls[i]:
                     try:
-                        eval("f(%s)" % c, {"f": fn, "ARGB": H.ARGB})
+                        r_ = eval("f(%s)" % c, {"f": fn, "ARGB": H.ARGB})
+                        if inspect.iscoroutine(r_):
+                            r_.close()
                         rt.append(True)
                     except TypeError:
                         rt.append(False)
@@ -1449,7 +1530,7 @@ def eval_sig(ctx, headers, with_model=True):
         sig_bad = canon_sig(idef) != canon_sig(iinsp)   # a value outside the universe (UNENC) differs from any value inside
         call_bad = []
         if verdict_in[i] is not None:
-            rej = lambda codes: "incompatible_call" in codes or "incompatible_argument" in codes
+            rej = lambda codes: ("incompatible_call" in codes or "incompatible_argument" in codes, "missing_await" in codes)
             for j, c in enumerate(calls_for(h)):
                 a, b, mm_ = rej(verdict_in[i][j]), rej(verdict_out[i][j]), rej(verdict_mod[i][j])
                 ctx.count(1, call=1)
@@ -1486,11 +1567,24 @@ def eval_sig(ctx, headers, with_model=True):
             ctx.sample({"def": defsrc[i], "def_route": idef, "inspect_route": iinsp, "model": m})
         if not supported:
             continue
+        # ---- the type of a call's result: next to the nested def vs from the importing module. With a return annotation the
+        # two must agree; without one the nested def's result is inferred from its body, so only the coroutine wrapper is compared
+        ri, ro = result_in.get(i), result_out.get(i)
+        if ri is not None and ro is not None and "UNENC" not in (ri, ro) and not call_bad and not sig_bad:
+            ctx.count(1, call_result=1)
+            if h["ret"] is not None:
+                same = canon(dedupe_any(parse_ty(ri))) == canon(dedupe_any(parse_ty(ro)))
+            else:
+                same = ri.startswith("(generic %d " % CORO) == ro.startswith("(generic %d " % CORO)
+            if not same:
+                ctx.candidate(dict(case, call="f(%s)" % calls_for(h)[0]),
+                              "the value of the call f(%s) is %s next to the nested def and %s from the importing module"
+                              % (calls_for(h)[0], ri, ro), cls=dcls, conforms=conforms, stream="call_result")
         if sig_bad:
             ctx.candidate(case, "signature from the def node differs from the signature from the function object: def=%s inspect=%s"
                           % (idef, iinsp), cls=dcls, conforms=conforms, stream="sig")
         for j, c, a, b, mm_ in call_bad:
-            w = lambda x: "rejected" if x else "accepted"
+            w = lambda x: ("rejected" if x[0] else "accepted") + (" + missing_await" if x[1] else "")
             ctx.candidate(dict(case, call="f(%s)" % c, cpython_binds=runtime[i][j]),
                           "call f(%s): %s next to the nested def, %s for the module-level def in its own module, %s from the "
                           "importing module (CPython %s)" % (c, w(a), w(mm_), w(b),
@@ -1786,6 +1880,87 @@ def eval_methods(ctx):
                           cls=None, conforms=True, stream="methods")
 
 
+# ------------------------------------------------------------------ decorated functions (implementation only)
+DECO_PRE = (
+    "import functools, contextlib\nfrom typing import Iterator, AsyncIterator\n"
+    "def deco(fn):\n    @functools.wraps(fn)\n    def w(*a, **k):\n        return fn(*a, **k)\n    return w\n"
+)
+DECO_DEFS = {
+    "wr": ("@deco\ndef wr(x: int) -> str:\n    return ''", None),
+    "cm": ("@contextlib.contextmanager\ndef cm(x: int) -> Iterator[int]:\n    yield 1", "wrappedDecorator"),
+    "acm": ("@contextlib.asynccontextmanager\nasync def acm(x: int) -> AsyncIterator[int]:\n    yield 1", "wrappedDecorator"),
+    "lc": ("@functools.lru_cache(maxsize=None)\ndef lc(x: int) -> int:\n    return 1", "wrappedDecorator"),
+    "lc2": ("@functools.lru_cache\ndef lc2(x: int) -> int:\n    return 1", "wrappedDecorator"),
+    "co": ("async def co(x: int) -> int:\n    return 1", None),
+    "plain": ("def plain(x: int) -> int:\n    return 1", None),
+}
+DECO_METHODS = "class K:\n    @staticmethod\n    def sm(x: int) -> int:\n        return 1\n    @classmethod\n    def cmeth(cls, x: int) -> int:\n        return 1\n"
+
+
+def eval_decorated(ctx):
+    """Decorated functions from a small safe list: the same calls next to the nested def (the def node with the decorator applied
+    through its declared type), for the module-level def in its own module, and from an importing module (both the function
+    object). Verdicts (incompatible_call / incompatible_argument / missing_await) and the value of the call are compared.
+    Known finding wrappedDecorator: a function object carrying __wrapped__ (contextmanager, asynccontextmanager, lru_cache) is
+    read with every parameter and the result as Any (arg_spec.py:422 is_wrapped), the def node applies the decorator's type."""
+    if ctx.scratch not in sys.path:
+        sys.path.insert(0, ctx.scratch)
+    _MODCOUNT[0] += 1
+    name = "c13deco_%d_%d" % (os.getpid(), _MODCOUNT[0])
+    defs = [d for d, _ in DECO_DEFS.values()]
+    with open(os.path.join(ctx.scratch, name + ".py"), "w") as f:
+        f.write(DECO_PRE + "\n".join(defs) + "\n" + DECO_METHODS)
+    importlib.invalidate_caches()
+    importlib.import_module(name)
+    calls = ["%s(1)", "%s('a')", "%s()"]
+    ind = lambda t: "\n".join("    " + l for l in t.split("\n"))
+    body = "\n".join("    " + c % n for n in DECO_DEFS for c in calls)
+    mcalls = "\n".join("    " + c % n for n in ("K.sm", "K.cmeth", "K().sm", "K().cmeth") for c in calls)
+    nested = DECO_PRE + "def outer():\n" + "\n".join(ind(d) for d in defs) + "\n" + body + "\n"
+    own = DECO_PRE + "\n".join(defs) + "\n" + DECO_METHODS + "def run():\n" + body + "\n" + mcalls + "\n"
+    imp = "import %s as H\ndef run():\n" % name + "\n".join("    " + c % ("H." + n) for n in DECO_DEFS for c in calls) + "\n" + \
+        "\n".join("    " + c % ("H." + n) for n in ("K.sm", "K.cmeth", "K().sm", "K().cmeth") for c in calls) + "\n"
+
+    def collect(src):
+        fails, tree, _ = pya.check_source(src, annotate=True)
+        codes = {}
+        for f in fails:
+            codes.setdefault(f["lineno"], set()).add(f["code"])
+        out = {}
+        for fn in tree.body:
+            if isinstance(fn, ast.FunctionDef) and fn.name in ("run", "outer"):
+                for n in fn.body:
+                    if isinstance(n, ast.Expr) and isinstance(n.value, ast.Call):
+                        v = getattr(n.value, "inferred_value", None)
+                        out[ast.unparse(n.value).replace("H.", "")] = (
+                            tuple(sorted(c for c in codes.get(n.lineno, ()) if c in ("incompatible_call", "incompatible_argument", "missing_await"))),
+                            _strip_any(_strip_tv(v)))
+        return out
+
+    a, b, c = collect(nested), collect(own), collect(imp)
+    for k in b:
+        ctx.count(1, decorated=1)
+        ctx.corr("decorated")
+        views = {"own module": b[k], "importer": c.get(k)}
+        if k in a:
+            views["nested def"] = a[k]
+        if len({repr(v) for v in views.values()}) > 1:
+            fn = k.split("(")[0]
+            cls = DECO_DEFS.get(fn, (None, None))[1]
+            ctx.candidate({"call": k, "def": DECO_DEFS.get(fn, (DECO_METHODS, None))[0]},
+                          "the call %s is judged differently: %s" % (k, "; ".join("%s: %s" % kv for kv in views.items())),
+                          cls=cls, conforms=True, stream="decorated")
+
+
+def _strip_any(x):
+    """Any sources are not compared (an AnyValue keeps only its class name)."""
+    if isinstance(x, tuple):
+        if x and x[0] == "AnyValue":
+            return ("AnyValue",)
+        return tuple(_strip_any(y) for y in x)
+    return x
+
+
 # ------------------------------------------------------------------ extra vocabulary: implementation only
 def eval_extra(ctx):
     ns = dict(NS)
@@ -1880,7 +2055,7 @@ def hdr_from_json(h):
 
     return {"po": [arg(x) for x in h["po"]], "pk": [arg(x) for x in h["pk"]], "vp": arg(h["vp"]), "ko": [arg(x) for x in h["ko"]],
             "kd": [dd(x) for x in h["kd"]], "vk": arg(h["vk"]), "df": [dd(x) for x in h["df"]],
-            "ret": None if h["ret"] is None else tt(h["ret"]), "future": bool(h["future"])}
+            "ret": None if h["ret"] is None else tt(h["ret"]), "future": bool(h["future"]), "kind": h.get("kind", "plain")}
 
 
 def gen_all(ctx):
@@ -1909,6 +2084,7 @@ def gen_all(ctx):
         rng.shuffle(sigs)
         sigs = sigs[:cap]
         ctx.extra["exhaustive_part"] += " (sampled down to %d by the seed)" % cap
+    sigs += kind_headers()
     for _ in range(ctx.n(600, 9000)):
         sigs.append(random_header(rng, rng.choice([0, 1, 1, 2])))
     return out, sigs
@@ -1924,6 +2100,7 @@ def run(ctx, with_model=True):
     eval_multi(ctx, mh[::ctx.n(16, 2)], with_model, K=3)
     eval_extra(ctx)
     eval_methods(ctx)
+    eval_decorated(ctx)
 
 
 def run_impl_only(ctx):
